@@ -454,7 +454,7 @@ pub fn run(ctx: &Ctx) -> i32 {
         let j = parse_json(&std::fs::read_to_string(p).expect("replay file")).expect("json");
         let c = j.get("case").unwrap();
         ctx.eval(1);
-        if c.get("flood").is_some() {
+        if c.get("flood").and_then(|f| f.as_u64()) == Some(1) {
             run_flood_set(ctx, &gf, c.u("seed"), c.u("idx"), &st);
         } else {
             run_set(ctx, &gf, c.u("seed"), c.u("idx"), &st);
@@ -463,11 +463,13 @@ pub fn run(ctx: &Ctx) -> i32 {
         ctx.nontrivial(2);
         return ctx.finish("replay of one recorded packet set (all its histories)", &[], vec![]);
     }
+    crashlog::set_case_fields(&["seed", "idx", "flood"]);
     let n = ctx.args.ex_u64("n", ctx.args.pick(12000, 120000)) as usize;
     par_for(n, |i| {
         if ctx.too_many_violations() {
             return;
         }
+        crashlog::note(crashlog::CASE, &[ctx.seed(), i as u64, 0]);
         run_set(ctx, &gf, ctx.seed(), i as u64, &st);
         ctx.eval(1);
         if i < 3 {
@@ -478,6 +480,7 @@ pub fn run(ctx: &Ctx) -> i32 {
     if ctx.args.ex("n").is_none() {
         par_for(ctx.args.pick(300, 6000), |i| {
             if !ctx.too_many_violations() {
+                crashlog::note(crashlog::CASE, &[ctx.seed(), i as u64, 1]);
                 run_flood_set(ctx, &gf, ctx.seed(), i as u64, &st);
                 ctx.eval(1);
             }
